@@ -164,6 +164,27 @@ theorem C12_reader_numbering (pts : List Pt) (oris : List Ori) :
     readerIndexes pts oris = List.range' 1 (indList pts oris).length :=
   readerIndexes_eq pts oris
 
+/-- C03, network clause ("the covariance matrix written to the XML output equals m0²·Q for any --cov-band"):
+    with `ind[]` the index list the writer builds (`indList`: adjusted coordinates in `PD` order, then orientations) and
+    `Q = qxx` the cofactors of the adjustment, the `<flt>` sequence is `m0²·Q(ind[i], ind[j])` for `i = 1…dim`,
+    `j = i…min(dim, i+band')` (`band' = clip band dim`), gama's reader accepts it and reconstructs exactly
+    `bandOf (m0²·Q∘ind) band'` at every position of the dim×dim matrix (both triangles, 0 outside the band), and
+    `<original-index>` is `ind[]`, so row `i` of the matrix read back is unknown `ind[i]` of the adjustment — for every
+    `--cov-band ≥ -1`, any points / orientations.  Hypothesis `hori` (network invariant, not derived here: the numbering
+    model of b-C08 (`Model/MinX`) has the index function but not the `unknowns_` list that `unknown_standpoint(i)` reads):
+    orientation unknown `i` belongs to the stand-point whose `index_orientation()` is `i`. -/
+theorem C03_xml_cov_is_m0sq_Q {K : Type} [Zero K] [Mul K] (Q : Nat → Nat → K) (m0 : K) (pts : List Pt) (oris : List Ori)
+    (hori : ∀ o ∈ oris, o.standpointIndex = o.i) (band : Int) (h : -1 ≤ band) :
+    let ind := indList pts oris
+    let dim := ind.length
+    let cov : Nat → Nat → K := fun i j => m0 * m0 * Q (ind.getD (i - 1) 0) (ind.getD (j - 1) 0)
+    (write cov dim band).flt = emitFlt cov dim (clip band dim) ∧
+    (∃ C : CovMat K, read (write cov dim band) = .ok C ∧ C.dim = dim ∧ C.band = clip band dim ∧
+      ∀ i j, 1 ≤ i → i ≤ dim → 1 ≤ j → j ≤ dim → get C i j = bandOf cov (clip band dim) i j) ∧
+    originalIndex pts oris = ind := by
+  intro ind dim cov
+  exact ⟨rfl, read_write cov dim band h, C12_original_index pts oris hori⟩
+
 /-! ## the reader's point records -/
 
 /-- every point record the reader builds is a function of the point's own child elements, the section kind and the
@@ -255,6 +276,11 @@ example : (write (fun i j => (10 * i + j : Int)) 4 7).flt.length = 10 := by deci
 example : (match read (write (fun i j => (10 * i + j : Int)) 4 1) with
     | .ok C => [get C 3 2, get C 2 3, get C 4 4, get C 1 3]
     | .error _ => []) = [23, 23, 44, 0] := by decide
+-- C03 network clause on a plane point + height point + one orientation, Q(a,b) = 10a+b, m0 = 2, band 1:
+-- ind = [3,4,5,6]; rows (1,1)(1,2)(2,2)(2,3)(3,3)(3,4)(4,4) ↦ 4·Q(ind i, ind j)
+example : indList [⟨true, false, 3, 4, 0⟩, ⟨false, true, 0, 0, 5⟩] [⟨6, 6⟩] = [3, 4, 5, 6] := by decide
+example : (write (fun i j => (4 : Int) * ((10 * ([3, 4, 5, 6].getD (i - 1) 0) + [3, 4, 5, 6].getD (j - 1) 0 : Nat) : Int)) 4 1).flt =
+    [132, 136, 176, 180, 220, 224, 264] := by decide
 -- a surplus element is ignored, a missing one is an error
 example : (match read (⟨2, 1, [1, 2, 3, 4]⟩ : Written Int) with | .ok C => C.data | .error _ => []) = [1, 2, 3] := by decide
 example : (match read (⟨2, 1, [1, 2]⟩ : Written Int) with | .ok _ => 0 | .error _ => 1) = 1 := by decide
